@@ -130,6 +130,10 @@ class Run:
             if m.group(1) == "LeakSanitizer":
                 what = "leak"
             return ("%s:%s" % (m.group(1).replace("Sanitizer", "").lower() + "san", what), self._case())
+        m = re.search(r"==\d+== (Invalid (?:read|write|free)[^\n]*|Conditional jump or move depends on uninitialised value|Use of uninitialised value[^\n]*|"
+                      r"Mismatched free[^\n]*|Source and destination overlap[^\n]*|Syscall param[^\n]*|Argument '[^\n]*|Process terminating[^\n]*)", e)
+        if m and self.flavour.partition("+")[0] in VALGRIND_FLAVOURS:
+            return ("memcheck:" + re.sub(r"\d+", "#", m.group(1)).strip().replace(" ", "_")[:70], self._case())
         m = re.search(r"WARNING: ThreadSanitizer: ([^\n(]+)", e)
         if m:
             return ("tsan:" + m.group(1).strip().replace(" ", "-"), self._case())
